@@ -67,6 +67,11 @@ CHECKS = {
     technique="SMT translation validation: every (permutation product, +-1) reported by the real Term.symmetry/Obj.symmetry is checked by z3 against the term with the composed permutation applied independently; the parts returned by exploit_perm_sym / sort.by_* / filter_tensor are re-assembled and compared with the input by z3 (symbolic tensor entries, all target assignments); filing keys recomputed directly",
     text="Generated terms (1-3 tensors, denominators, exponents, spin) in the three index modes and per object; expressions symmetrised over random subgroups for exploit_perm_sym with all target-string / bra-ket / result-tensor options; five sorters and filter_tensor.",
     note="Bounded generator and models (<=3o3v). Permutations are applied by sympy's simultaneous substitution of the composed map, not by adcgen's permute. Cases in which Term.symmetry does not finish within the per-case limit give no verdict (counted in evidence)."),
+ "C14": dict(
+    level=TV, design="2/C14", engine="tvsmt",
+    technique="SMT translation validation: block expressions returned by the real remove_tensor are re-contracted with the canonical tensor blocks (documented normalisation) and compared with the input by z3; the symmetry of each block expression is checked by z3; derivative blocks contracted with a free variation tensor are compared by z3 with the first-order coefficient of expr(T + eps dT)",
+    text="Generated expressions (Einstein-unambiguous) with removable tensors of ranks 1|1, 2|2, 2|1, non-symmetric rank 2/3, bra-ket 0/+1/-1 and ADC amplitude vectors, incl. target-carrying and repeated indices on the removed tensor; derivative with 1-2 occurrences and exponent 2.",
+    note="remove_tensor: one occurrence per term (normalisation for several occurrences is undocumented: outside); derivative: all tensor indices contracted (with target indices on the tensor the block result carries no deltas: outside). Normalisation c/|G| fixed from the docstrings."),
 }
 NA_REASON = "check not built yet in this round (planned, see DESIGN.md section 2)"
 
